@@ -834,6 +834,8 @@ impl<T> Sender<T> {
                         // Safety: the signal was removed before anyone took the
                         // data, sender should drop it if it needs to
                         if needs_drop::<T>() {
+                            #[cfg(kanal_verif)]
+                            crate::verif::owner_slot(data.as_ptr(), 1);
                             unsafe { data.assume_init_drop() }
                         }
                         return Err(SendErrorTimeout::Timeout);
